@@ -197,6 +197,7 @@ class Inliner:
         self.count = 0
         self.sites = []
         self.inlined = set()
+        self.into = {}
 
     # ---- which callee
     def callee(self, fi: FuncInfo, call: ast.Call):
@@ -431,6 +432,7 @@ class Inliner:
                         x.lineno = site
             self.count += 1
             self.inlined.add(t)
+            self.into.setdefault(t.qualname, set()).add(fi.qualname)
             self.sites.append(f"{fi.module.rel}:{site} {fi.qualname} <- {t.qualname}")
             # the inlined body may itself call helpers
             return self.expand_block(fi, names, new, depth + 1, stack + (t,))
@@ -656,7 +658,7 @@ def build_view(repo, passes):
     with open(os.path.join(out, ".linemap.json"), "w") as f:
         json.dump(linemap, f)
     return out, {"passes": list(passes), "modules_rewritten": changed, "helper_calls_inlined": inl.count, "locals_folded": fol.count,
-                 "fully_inlined": sorted(fully), "sites": inl.sites[:40]}
+                 "fully_inlined": sorted(fully), "inlined_into": {k: sorted(v) for k, v in inl.into.items()}, "sites": inl.sites[:40]}
 
 
 def remap_where(view_dir, where):
